@@ -162,7 +162,7 @@ CHECKS = {
         'level_text': 'Hundreds (quick) to tens of thousands (thorough) of real handshakes: UIDs incl. all-zero/all-0xff, proxy-method names of every length 1..12, four encryption methods (and the aes-gcm synonym), session ids incl. 0 and 2^32-1, both flags, chrome/firefox/safari, direct and CDN transports '
                       '(the client\'s real utls TLS handshake is terminated by an in-process crypto/tls server that forwards plaintext to the origin), server names incl. a 253-byte name and random/RANDOM, client clock offsets in [-178 s, +178 s] plus clients ahead by just under the 180 s tolerance (inside the window by the sub-second phase of the server clock), random server clock phases, byte-wise/random/whole segmentation. '
                       'Oracle: every ClientInfo field equals the configuration, the key returned by the client equals the key the server sealed, and a message crosses the prepared connections. Whole system: MakeSession + Serve, the registered session has the client\'s key and flags, a 1 KiB echo works and the proxy address of the configured method is dialled (every fourth case after an outage of 190..390 virtual seconds during which dials fail). Forced overlaps: a connection parked between authorisation and session attachment (hook, or inside the user manager) while another completes; 2..6 simultaneous connections of one new session of a database user against a yielding user manager - each must be told the key of the session the server keeps.',
-        'level_note': 'Assumes ' + A_RACE + ', ' + A_HARNESS + ' and Go\'s crypto/tls as the CDN stand-in. The exact edges of the +-180 s window are C07's subject; C06 only adds clients that are inside the window by the sub-second phase of the server clock. ClientHello randomness (extension order, padding, GREASE) is sampled by repetition; evidence lists the distinct hello lengths and extension orders seen.',
+        'level_note': 'Assumes ' + A_RACE + ', ' + A_HARNESS + ' and Go\'s crypto/tls as the CDN stand-in. The exact edges of the +-180 s window are the subject of C07; C06 only adds clients that are inside the window by the sub-second phase of the server clock. ClientHello randomness (extension order, padding, GREASE) is sampled by repetition; evidence lists the distinct hello lengths and extension orders seen.',
         'rule': 'case = one handshake configuration (uid class, method-name length, encryption, session id, flags, browser, transport, server name, clock offset, segmentation); distinct = hash of the configuration; non-trivial = the handshake completed and all fields and both keys were compared',
         'assumptions': [A_RACE, A_HARNESS],
         'quick': {'shards': 14, 'timeout': 900},
